@@ -62,6 +62,10 @@ func Harness_C14_concurrent() {
 		return out
 	}
 	chains := [][]*x509.Certificate{mk([]byte{0x11}, []byte{0xa1}), mk([]byte{0x12}, []byte{0xa2}, []byte{0xa3})}
+	if vChoice("chains-of-equal-length", 2) == 1 {
+		// (a buffer that held the first chain fits the second one exactly)
+		chains[1] = mk([]byte{0x12}, []byte{0xa2})
+	}
 	precert := vChoice("precert", 2) == 1
 	var direct, ref [2]*trillian.LogLeaf
 	for i, ch := range chains {
@@ -216,6 +220,37 @@ func Harness_C14_lruKeys() {
 	before := append([]byte{}, bad.ExtraData...)
 	vAssert(svc.FixLogLeaf(ctx, bad) != nil && bytes.Equal(bad.ExtraData, before), "an unknown hash is an error and leaves the entry alone")
 	vReach("checked")
+}
+
+// Harness_C14_lruHeld: what a reader got from the cache stays that chain: the slice a lookup
+// returned (a reader is about to decode it) still holds the chain's bytes after any two further
+// chains were cached, evicting it (capacity 1 or 2), and after its own key was overwritten; a
+// caller's chain slice is likewise untouched by caching it, and changing it afterwards does not
+// change what the cache serves only if the cache documents a copy -- the cache may share it, so
+// that direction is not asserted.
+//
+//verif:opt maxpaths=400 reach=held
+func Harness_C14_lruHeld() {
+	ctx := context.Background()
+	c := lru.NewIssuanceChainCache(lru.CacheOption{Size: 1 + vChoice("capacity", 2), TTL: 0})
+	a := []byte{0x30, 0x03, 0x04, 0x01, vU8("a")}
+	aCopy := append([]byte{}, a...)
+	vAssert(c.Set(ctx, []byte("key-a"), a) == nil, "cached")
+	held, err := c.Get(ctx, []byte("key-a"))
+	vAssert(err == nil && bytes.Equal(held, aCopy), "a hit returns the chain")
+	for i := 0; i < 3; i++ {
+		// later chains are shorter than, as long as, or longer than the first one
+		n := 4 + vChoice("later-chain-len", 3)
+		later := make([]byte, n)
+		for j := range later {
+			later[j] = 0xc0 + byte(i)
+		}
+		key := [][]byte{[]byte("key-b"), []byte("key-c"), []byte("key-a")}[i]
+		vAssert(c.Set(ctx, key, later) == nil, "cached")
+		vAssert(bytes.Equal(held, aCopy), "the bytes a reader was handed are still the first chain's, whatever was cached or evicted since")
+		vAssert(bytes.Equal(a, aCopy), "the caller's own slice is untouched")
+	}
+	vReach("held")
 }
 
 // struct { opaque issuance_chain_hash<0..256>; } CertificateChainHash (2-byte length prefix)
